@@ -65,6 +65,41 @@ class NodeFacts(object):
                     self.constructible.setdefault(m['_C'].id, [])
                     if p not in self.constructible[m['_C'].id]:
                         self.constructible[m['_C'].id].append(p)
+        # what a grammar symbol may yield (Node classes), and what list nodes contain
+        self.yields = {}
+        self.list_elems = {}
+        for _ in range(8):
+            changed = False
+            for p in self.g.productions:
+                out = self.yields.setdefault(p.head, set())
+                before = len(out)
+                for st in [x for b in body_without_doc(p.fn) for x in ast.walk(b) if isinstance(x, ast.stmt)]:
+                    if isinstance(st, ast.Assign) and pm.match('p[0]', st.targets[0]) is not None:
+                        v = st.value
+                        if isinstance(v, ast.Call) and dotted(v.func) in self.names:
+                            out.add(dotted(v.func))
+                        m = pm.match('p[_I]', v)
+                        if m and isinstance(m['_I'], ast.Constant) and 0 < m['_I'].value <= len(p.syms):
+                            sym = p.syms[m['_I'].value - 1]
+                            i = m['_I'].value
+                            # a re-classed operand
+                            re_cls = [pm.match('p[%d].__class__ = _C' % i, s2) for s2 in body_without_doc(p.fn)]
+                            re_cls = [x['_C'].id for x in re_cls if x]
+                            if re_cls:
+                                out.update(re_cls)
+                            else:
+                                out |= self.yields.get(sym, set())
+                    for pat in ('p[0].children.insert(0, p[_I])', 'p[0].children.append(p[_I])'):
+                        m = pm.match(pat, st)
+                        if m and isinstance(m['_I'], ast.Constant) and 0 < m['_I'].value <= len(p.syms):
+                            for lc in list(out):
+                                le = self.list_elems.setdefault(lc, set())
+                                n0 = len(le)
+                                le.add(p.syms[m['_I'].value - 1])
+                                changed = changed or len(le) != n0
+                changed = changed or len(out) != before
+            if not changed:
+                break
         # nonterminals that may yield None (production sets p[0] = None or passes)
         self.none_syms = set()
         for p in self.g.productions:
@@ -77,6 +112,28 @@ class NodeFacts(object):
             for p, pos, v in lst:
                 if pos is not None and pos - 1 < len(p.syms) and p.syms[pos - 1] in self.none_syms:
                     self.nullable.setdefault((cls, field), []).append(p)
+
+
+def field_classes(f, cls, field):
+    '''Node classes that may be stored in <cls>.<field> according to the grammar actions'''
+    out = set()
+    for p, pos, v in f.field_pos.get((cls, field), []):
+        if pos is not None and 0 < pos <= len(p.syms):
+            # re-classed operand in this production?
+            re_cls = [pm.match('p[%d].__class__ = _C' % pos, s2) for s2 in body_without_doc(p.fn)]
+            re_cls = [x['_C'].id for x in re_cls if x]
+            if re_cls:
+                out.update(re_cls)
+            else:
+                out |= f.yields.get(p.syms[pos - 1], set())
+    return out
+
+
+def child_classes(f, cls):
+    out = set()
+    for sym in f.list_elems.get(cls, set()):
+        out |= f.yields.get(sym, set())
+    return out
 
 
 def facts(repo):
